@@ -58,6 +58,10 @@ struct Flags {
     fileout: bool,
     /// mrt-file-in handles `Reconfiguring`
     mrt: bool,
+    /// bmp-tcp-in moves its HTTP endpoints to a changed `http_api_path`
+    bmppath: bool,
+    /// bmp-tcp-in reads the first message after a changed `tracing_mode` with the new mode
+    bmptrace: bool,
 }
 
 struct Outcome { case: String, imp: String, oracle: String, nontrivial: bool, notes: Vec<String>, discard: bool }
@@ -1270,6 +1274,277 @@ fn gen_mrt(g: &mut Rng) -> (MCfg, Vec<MEv>) {
     (cfg0, evs)
 }
 
+// =================================================================== bmp-tcp-in
+
+#[derive(Clone, Copy, Debug, PartialEq)]
+struct PCfg { listen: u8, path: u8, tmpl: u8, filter: u8, mode: u8 }
+#[derive(Clone, Debug, PartialEq)]
+enum PEv { Conn(u8), Init(usize, u8), Close(usize), Reload(PCfg) }
+const PATHS: [&str; 2] = ["/routers/", "/bmp2/"];
+const TMPLS: [&str; 3] = ["a-{sys_name}", "r-{sys_name}", "{router_ip}-{sys_name}"];
+const MODES: [&str; 3] = ["Off", "IfRequested", "On"];
+fn show_pcfg(c: &PCfg) -> String { format!("{},{},{},{},{}", c.listen, c.path, c.tmpl, c.filter, c.mode) }
+fn parse_pcfg(s: &str) -> Option<PCfg> { let f: Vec<u8> = s.split(',').map(|x| x.parse().ok()).collect::<Option<Vec<u8>>>()?; if f.len() != 5 { return None; } Some(PCfg { listen: f[0] % 3, path: f[1] % 2, tmpl: f[2] % 3, filter: f[3] % 3, mode: f[4] % 3 }) }
+fn show_pev(e: &PEv) -> String { match e { PEv::Conn(s) => format!("c{s}"), PEv::Init(k, t) => format!("i{k}.{t}"), PEv::Close(k) => format!("x{k}"), PEv::Reload(c) => format!("R{}", show_pcfg(c)) } }
+fn parse_pev(s: &str) -> Option<PEv> { let (h, r) = s.split_at(1); Some(match h { "c" => PEv::Conn(r.parse().ok()?), "i" => { let (k, t) = r.split_once('.')?; PEv::Init(k.parse().ok()?, t.parse().ok()?) } "x" => PEv::Close(r.parse().ok()?), "R" => PEv::Reload(parse_pcfg(r)?), _ => return None }) }
+fn show_pcase(c: &PCfg, evs: &[PEv]) -> String { format!("B|{}|{}", show_pcfg(c), join(evs.iter().map(show_pev), ";")) }
+fn parse_pcase(line: &str) -> Option<(PCfg, Vec<PEv>)> {
+    let f: Vec<&str> = line.split('|').collect();
+    if f.len() != 3 || f[0] != "B" { return None; }
+    Some((parse_pcfg(f[1])?, if f[2].is_empty() { vec![] } else { f[2].split(';').map(parse_pev).collect::<Option<Vec<_>>>()? }))
+}
+fn bmp_toml(c: &PCfg, ports: &[u16; 3]) -> String {
+    format!("listen = \"127.0.0.1:{}\"\nhttp_api_path = \"{}\"\nrouter_id_template = \"{}\"\nfilter_name = \"f{}\"\ntracing_mode = \"{}\"\n", ports[c.listen as usize % 3], PATHS[c.path as usize % 2], TMPLS[c.tmpl as usize % 3], c.filter, MODES[c.mode as usize % 3])
+}
+/// BMP Initiation message (sysDescr "d", sysName "rt"); `t` > 0 sets the diagnostic trace id in the high half of the version byte
+fn bmp_initiation(t: u8) -> Vec<u8> {
+    let tlvs = [0u8, 1, 0, 1, b'd', 0, 2, 0, 2, b'r', b't'];
+    let mut v = vec![(t << 4) | 3];
+    v.extend_from_slice(&((6 + tlvs.len()) as u32).to_be_bytes());
+    v.push(4);
+    v.extend_from_slice(&tlvs);
+    v
+}
+fn label_of(tmpl: u8, id: u32) -> String { TMPLS[tmpl as usize % 3].replace("{sys_name}", &id.to_string()).replace("{router_ip}", "IP") }
+
+/// (listening slots, paths the list page answers at, per router: (ingress id, paths its page answers at, template of its current router id),
+/// labels under which messages were received as (template, id), the three stored settings, the routers)
+struct PObs { tok: String, listening: Vec<usize>, list_at: Vec<usize>, info_at: Vec<(u32, Vec<usize>, Option<usize>)>, labels: Vec<(u32, usize)>, stored: (Option<usize>, String, Option<usize>) }
+fn opt_s(o: &Option<usize>) -> String { o.map(|i| i.to_string()).unwrap_or("?".into()) }
+fn show_pobs(o: &PObs) -> String {
+    format!("{}@P{}:H{}:I{}:N{}:S{}.{}.{}", o.tok, join(o.listening.iter(), ""), if o.list_at.is_empty() { "-".into() } else { join(o.list_at.iter(), "") },
+        if o.info_at.is_empty() { "-".into() } else { join(o.info_at.iter().map(|(i, p, t)| format!("{i}={}/{}", if p.is_empty() { "-".into() } else { join(p.iter(), "") }, opt_s(t))), ",") },
+        if o.labels.is_empty() { "-".into() } else { join(o.labels.iter().map(|(i, t)| format!("{t}.{i}")), ",") },
+        opt_s(&o.stored.0), o.stored.1.trim_start_matches('f'), opt_s(&o.stored.2))
+}
+fn parse_label(l: &str) -> Option<(u32, usize)> { for (t, pre) in [(0usize, "a-"), (1, "r-"), (2, "IP-")] { if let Some(r) = l.strip_prefix(pre) { return Some((r.parse().ok()?, t)); } } None }
+
+async fn run_bmp(cfg0: &PCfg, evs: &[PEv]) -> (Vec<PObs>, bool, bool) {
+    use rotonda::verif::reconfunits as rh;
+    let ports = [free_port(), free_port(), free_port()];
+    let Ok(unit) = rh::bmp::parse_unit(&bmp_toml(cfg0, &ports)) else { return (vec![], false, true) };
+    let resources = rotonda::verif::http::Resources::default();
+    let metrics = rotonda::verif::http::MetricsCollection::default();
+    let tracer = Arc::new(rh::Tracer::new());
+    let comp = rh::component_with_http_and_tracer("bmp-in", "bmp-tcp-in", rotonda::verif::c17::new_register(), resources.clone(), tracer.clone());
+    let (gate, mut agent) = Gate::new(8);
+    let collected: Arc<Mutex<Vec<Update>>> = Arc::new(Mutex::new(vec![]));
+    let c2 = collected.clone();
+    let target = Arc::new(FnTarget(Arc::new(move |u: Update| { c2.lock().unwrap().push(u); })));
+    let mut down = agent.create_link();
+    down.set_direct_update_target(target.clone());
+    let coord = Coordinator::new(1);
+    let wp = coord.clone().track("bmp-in".into());
+    let (ptx, prx) = tokio::sync::oneshot::channel();
+    let task = tokio::spawn(rh::bmp::run_probed(unit, comp, gate, wp, ptx));
+    let _ = down.connect(false).await;
+    coord.wait(|_, _| {}).await;
+    let Ok(Ok(probes)) = tokio::time::timeout(Duration::from_secs(4), prx).await else { task.abort(); return (vec![], false, true) };
+    let mut downs = vec![down];
+    if !wait_until(Duration::from_millis(2500), || listening(&ports).contains(&(cfg0.listen as usize % 3))).await { task.abort(); return (vec![], false, true); }
+    let mut cur = *cfg0;
+    let mut conns: Vec<Option<TcpStream>> = vec![];
+    let mut obs = vec![];
+    let counter = |text: &str, name: &str| -> u64 { text.lines().filter(|l| l.starts_with(name) && !l.starts_with('#')).filter_map(|l| l.rsplit(' ').next()?.parse::<u64>().ok()).sum() };
+    for ev in evs {
+        let tok = match ev {
+            PEv::Conn(slot) => {
+                let k = conns.len();
+                let sock = TcpSocket::new_v4().unwrap();
+                let _ = sock.set_reuseaddr(true);
+                let n0 = probes.routers().len();
+                let res = match sock.bind(SocketAddr::from((Ipv4Addr::new(127, 3, (k / 200) as u8, 1 + (k % 200) as u8), 0))) { Err(_) => None, Ok(()) => tokio::time::timeout(Duration::from_secs(2), sock.connect(SocketAddr::from(([127, 0, 0, 1], ports[*slot as usize % 3])))).await.ok().and_then(|r| r.ok()) };
+                match res {
+                    None => { conns.push(None); "refused".to_string() }
+                    Some(s) => {
+                        let _ = s.set_nodelay(true);
+                        let ok = wait_until(Duration::from_secs(4), || probes.routers().len() > n0).await;
+                        conns.push(Some(s));
+                        if ok { format!("ok{}", probes.routers().last().copied().unwrap_or(0)) } else { "notaccepted".into() }
+                    }
+                }
+            }
+            PEv::Init(k, t) => match conns.get_mut(*k).and_then(|c| c.as_mut()) {
+                None => "nc".into(),
+                Some(s) => {
+                    for i in 0..=255u8 { tracer.clear_trace_id(i); }
+                    let m0 = probes.metrics_text("bmp-in");
+                    let (r0, e0) = (counter(&m0, "rotonda_bmp_tcp_in_num_bmp_messages_received"), counter(&m0, "rotonda_bmp_tcp_in_num_receive_io_errors"));
+                    let sent = s.write_all(&bmp_initiation(*t)).await.is_ok();
+                    let mut processed = false;
+                    if sent {
+                        wait_until(Duration::from_secs(3), || { let m = probes.metrics_text("bmp-in"); let (r, e) = (counter(&m, "rotonda_bmp_tcp_in_num_bmp_messages_received"), counter(&m, "rotonda_bmp_tcp_in_num_receive_io_errors")); processed = r > r0; r > r0 || e > e0 }).await;
+                    }
+                    tokio::time::sleep(Duration::from_millis(15)).await;
+                    let traced: Vec<u8> = (0..=255u8).filter(|i| !tracer.get_trace(*i).msgs().is_empty()).collect();
+                    format!("m{}t{}", processed as u8, if traced.is_empty() { "-".into() } else { join(traced.iter(), "+") })
+                }
+            },
+            PEv::Close(k) => match conns.get_mut(*k) {
+                Some(c) if c.is_some() => {
+                    let mut s = c.take().unwrap();
+                    let n0 = probes.routers().len();
+                    let _ = s.shutdown().await;
+                    drop(s);
+                    if wait_until(Duration::from_secs(4), || probes.routers().len() < n0).await { "closed".into() } else { "noend".into() }
+                }
+                _ => "nc".into(),
+            },
+            PEv::Reload(new) => {
+                let Ok(parsed) = rh::bmp::parse_unit(&bmp_toml(new, &ports)) else { return (obs, false, true) };
+                let (new_gate, mut new_agent) = Gate::new(8);
+                let mut l = new_agent.create_link();
+                l.set_direct_update_target(target.clone());
+                let _ = new_gate.process_until(async { let _ = l.connect(false).await; }).await;
+                downs.push(l);
+                let sent = agent.reconfigure(rotonda::units::Unit::BmpTcpIn(parsed), new_gate).await.is_ok();
+                agent = new_agent;
+                let rep = UpstreamLinkReport::new();
+                let _ = agent.report_links(rep.clone()).await;
+                let r2 = rep.clone();
+                let acked = wait_until(Duration::from_secs(4), || r2.ready()).await;
+                if new.listen != cur.listen { wait_until(Duration::from_secs(4), || listening(&ports) == vec![new.listen as usize % 3]).await; }
+                tokio::time::sleep(Duration::from_millis(15)).await;
+                cur = *new;
+                if sent && acked { "r".into() } else { "r!".into() }
+            }
+        };
+        // ---- everything observable, after every event
+        tokio::time::sleep(Duration::from_millis(3)).await;
+        let routers = probes.routers();
+        let get = |path: String| { let resources = resources.clone(); let metrics = metrics.clone(); async move { let req = hyper::Request::builder().method("GET").uri(path).body(hyper::Body::empty()).unwrap(); match tokio::time::timeout(Duration::from_secs(5), rotonda::verif::http::handle_request(req, &metrics, &resources)).await { Ok(r) => r.status().as_u16(), Err(_) => 0 } } };
+        let mut list_at = vec![];
+        for (pi, p) in PATHS.iter().enumerate() { if get(p.to_string()).await == 200 { list_at.push(pi); } }
+        let mut info_at = vec![];
+        for id in &routers {
+            let mut at = vec![];
+            for (pi, p) in PATHS.iter().enumerate() { if get(format!("{p}{id}")).await == 200 { at.push(pi); } }
+            // the router id its state machine carries now: the page also answers to that name
+            let mut cur_t = None;
+            if let Some(pi) = at.first() { for t in 0..3u8 { if get(format!("{}{}", PATHS[*pi], label_of(t, *id))).await == 200 { cur_t = Some(t as usize); } } }
+            info_at.push((*id, at, cur_t));
+        }
+        let text = probes.metrics_text("bmp-in");
+        let mut labels: Vec<(u32, usize)> = text.lines().filter(|l| l.starts_with("rotonda_bmp_tcp_in_num_bmp_messages_received_total") && l.contains("Initiation") && !l.ends_with(" 0")).filter_map(|l| l.split("router=\"").nth(1).and_then(|r| parse_label(r.split('"').next().unwrap_or("")))).collect();
+        labels.sort(); labels.dedup();
+        let stored = (TMPLS.iter().position(|t| *t == probes.router_id_template()), probes.filter_name(), MODES.iter().position(|t| *t == probes.tracing_mode()));
+        obs.push(PObs { tok, listening: listening(&ports), list_at, info_at, labels, stored });
+    }
+    let died = task.is_finished();
+    agent.terminate().await;
+    wait_until(Duration::from_secs(2), || task.is_finished()).await;
+    task.abort();
+    drop(conns);
+    drop(downs);
+    (obs, died, false)
+}
+
+fn bmp_case(cfg0: &PCfg, evs: &[PEv]) -> Outcome {
+    let tname = format!("reconfunits-{}", CASE_NO.fetch_add(1, std::sync::atomic::Ordering::SeqCst));
+    let rt = tokio::runtime::Builder::new_multi_thread().worker_threads(2).thread_name(tname.clone()).enable_all().build().unwrap();
+    let (obs, died, discard) = rt.block_on(run_bmp(cfg0, evs));
+    rt.shutdown_timeout(Duration::from_millis(200));
+    let panics = take_panics(&tname);
+    let mut fails: Vec<String> = vec![];
+    let mut notes: Vec<String> = vec![];
+    if died || !panics.is_empty() { fails.push(format!("reconf:bmp-tcp-in:unit-task-ended {}", panics.join(";").replace(' ', "_"))); }
+    // ---- reference: after a Reconfigure has been handled everything is judged by the new configuration, sessions stay
+    let mut cur = *cfg0;
+    let mut live: Vec<(usize, u32)> = vec![]; // (connection, ingress id)
+    let mut nconn = 0usize;
+    let mut tnext = 0u32;
+    let mut reloads = 0;
+    if !discard {
+        for (i, ev) in evs.iter().enumerate() {
+            let Some(o) = obs.get(i) else { break };
+            match ev {
+                PEv::Conn(slot) => {
+                    let k = nconn; nconn += 1;
+                    let want_ok = *slot % 3 == cur.listen % 3;
+                    if o.tok.starts_with("ok") != want_ok { fails.push(format!("reconf:bmp-tcp-in:listen event {i} {}: expected {} got {} (listen in force: slot {})", show_pev(ev), if want_ok { "accepted" } else { "refused" }, o.tok, cur.listen)); }
+                    if let Some(id) = o.tok.strip_prefix("ok").and_then(|x| x.parse::<u32>().ok()) {
+                        live.push((k, id));
+                        // the id the router is known under right away comes from the template in force
+                        if let Some((_, _, t)) = o.info_at.iter().find(|(j, _, _)| *j == id) { if *t != Some(cur.tmpl as usize % 3) { fails.push(format!("reconf:bmp-tcp-in:router_id_template event {i} {}: router {id} is known as template {} instead of {}", show_pev(ev), opt_s(t), cur.tmpl)); } }
+                    }
+                }
+                PEv::Init(k, t) => {
+                    if let Some((_, id)) = live.iter().find(|(c, _)| c == k) {
+                        let want = match cur.mode % 3 {
+                            0 => if *t == 0 { "m1t-".to_string() } else { "m0t-".to_string() },
+                            1 => if *t == 0 { "m1t-".to_string() } else { format!("m1t{t}") },
+                            _ => if *t == 0 { let n = tnext; tnext = (tnext + 1) % 256; format!("m1t{n}") } else { format!("m1t{t}") },
+                        };
+                        if o.tok != want {
+                            fails.push(format!("reconf:bmp-tcp-in:tracing_mode event {i} {}: expected {want} got {} (tracing_mode in force: {})", show_pev(ev), o.tok, MODES[cur.mode as usize % 3]));
+                            // follow the real counter
+                            if let Some(n) = o.tok.split('t').nth(1).and_then(|x| x.parse::<u32>().ok()) { if cur.mode % 3 == 2 && *t == 0 { tnext = (n + 1) % 256; } }
+                        }
+                        if o.tok.starts_with("m1") { if let Some((_, _, tt)) = o.info_at.iter().find(|(j, _, _)| j == id) { if *tt != Some(cur.tmpl as usize % 3) { fails.push(format!("reconf:bmp-tcp-in:router_id_template event {i} {}: after its Initiation message router {id} is known as template {} instead of {}", show_pev(ev), opt_s(tt), cur.tmpl)); } } }
+                        notes.push(format!("init-mode{}-{}", cur.mode, if *t == 0 { "plain" } else { "traceid" }));
+                    }
+                }
+                PEv::Close(k) => { live.retain(|(c, _)| c != k); }
+                PEv::Reload(new) => {
+                    reloads += 1;
+                    let changed: Vec<&str> = [("listen", new.listen != cur.listen), ("http_api_path", new.path != cur.path), ("router_id_template", new.tmpl != cur.tmpl), ("filter_name", new.filter != cur.filter), ("tracing_mode", new.mode != cur.mode)].iter().filter(|x| x.1).map(|x| x.0).collect();
+                    notes.push(format!("reload-changes-{}", if changed.is_empty() { "nothing".into() } else { changed.join("+") }));
+                    if o.tok != "r" { fails.push(format!("reconf:bmp-tcp-in:reconfigure-not-acknowledged event {i}")); }
+                    let what = format!("event {i} {} (changed: {})", show_pev(ev), if changed.is_empty() { "nothing".into() } else { changed.join("+") });
+                    if o.stored.0 != Some(new.tmpl as usize % 3) { fails.push(format!("reconf:bmp-tcp-in:router_id_template {what}: the unit holds template {}", opt_s(&o.stored.0))); }
+                    if o.stored.1 != format!("f{}", new.filter) { fails.push(format!("reconf:bmp-tcp-in:filter_name {what}: the unit holds {}", o.stored.1)); }
+                    if o.stored.2 != Some(new.mode as usize % 3) { fails.push(format!("reconf:bmp-tcp-in:tracing_mode {what}: the unit holds mode {}", opt_s(&o.stored.2))); }
+                    if o.listening != vec![new.listen as usize % 3] { fails.push(format!("reconf:bmp-tcp-in:listen {what}: listening on slots {:?}", o.listening)); }
+                    // established sessions are kept
+                    let have: Vec<u32> = o.info_at.iter().map(|x| x.0).collect();
+                    let mut want: Vec<u32> = live.iter().map(|x| x.1).collect(); want.sort();
+                    if have != want { fails.push(format!("reconf:bmp-tcp-in:sessions-not-kept {what}: routers {:?}, before {:?}", have, want)); }
+                    cur = *new;
+                }
+            }
+            // what holds after every event
+            if o.list_at != vec![cur.path as usize % 2] { fails.push(format!("reconf:bmp-tcp-in:http_api_path event {i} {}: the router list answers at {}, the path in force is {}", show_pev(ev), if o.list_at.is_empty() { "no path".to_string() } else { join(o.list_at.iter().map(|p| PATHS[*p]), " and ") }, PATHS[cur.path as usize % 2])); }
+            else if let Some((id, at, _)) = o.info_at.iter().find(|(_, at, _)| *at != vec![cur.path as usize % 2]) { fails.push(format!("reconf:bmp-tcp-in:http_api_path event {i} {}: the page of router {id} answers at {:?}, the path in force is {}", show_pev(ev), at, PATHS[cur.path as usize % 2])); }
+        }
+    }
+    let imp = join(obs.iter().map(show_pobs), " ");
+    for f in &fails { notes.push(format!("oracle-{}", f.split_whitespace().next().unwrap_or(""))); }
+    // one finding per setting; the rarer mechanism first
+    fails.sort_by_key(|f| if f.contains(":tracing_mode") { 0 } else if f.contains(":http_api_path") { 2 } else { 1 });
+    fails.dedup_by_key(|f| f.split_whitespace().next().unwrap_or("").to_string());
+    let oracle = fail_line(&mut fails);
+    Outcome { case: show_pcase(cfg0, evs), imp, oracle, nontrivial: reloads >= 1, notes, discard }
+}
+
+/// the configuration that takes the settings named in `subset` (bit 0 listen, 1 path, 2 template, 3 filter, 4 mode) from `b`, the rest from `a`
+fn mix(a: &PCfg, b: &PCfg, subset: u8) -> PCfg {
+    PCfg { listen: if subset & 1 != 0 { b.listen } else { a.listen }, path: if subset & 2 != 0 { b.path } else { a.path }, tmpl: if subset & 4 != 0 { b.tmpl } else { a.tmpl }, filter: if subset & 8 != 0 { b.filter } else { a.filter }, mode: if subset & 16 != 0 { b.mode } else { a.mode } }
+}
+/// One case per subset of settings changed by one reload: a router before, the reload, the same router again (with a
+/// trace id, then plain), a router after at the new and at the old address, an identical reload, both routers again.
+fn bmp_subset_case(g: &mut Rng, subset: u8) -> (PCfg, Vec<PEv>) {
+    let a = PCfg { listen: g.below(3) as u8, path: g.below(2) as u8, tmpl: g.below(3) as u8, filter: g.below(3) as u8, mode: g.below(3) as u8 };
+    let b = PCfg { listen: (a.listen + 1 + g.below(2) as u8) % 3, path: 1 - a.path, tmpl: (a.tmpl + 1 + g.below(2) as u8) % 3, filter: (a.filter + 1 + g.below(2) as u8) % 3, mode: (a.mode + 1 + g.below(2) as u8) % 3 };
+    let n = mix(&a, &b, subset);
+    let t = 1 + g.below(14) as u8;
+    (a, vec![PEv::Conn(a.listen), PEv::Init(0, 0), PEv::Reload(n), PEv::Init(0, t), PEv::Init(0, 0), PEv::Conn(n.listen), PEv::Init(1, 0), PEv::Conn(a.listen), PEv::Reload(n), PEv::Init(0, t), PEv::Init(1, 0)])
+}
+fn gen_bmp(g: &mut Rng) -> (PCfg, Vec<PEv>) {
+    let pc = |g: &mut Rng| PCfg { listen: g.below(3) as u8, path: g.below(2) as u8, tmpl: g.below(3) as u8, filter: g.below(3) as u8, mode: g.below(3) as u8 };
+    let cfg0 = pc(g);
+    let mut cur = cfg0;
+    let mut evs = vec![];
+    let mut nconn = 0usize;
+    for i in 0..g.range(4, 10) {
+        let r = g.below(100);
+        if nconn == 0 || (i < 2 && r < 50) || r < 20 { evs.push(PEv::Conn(if g.chance(5, 6) { cur.listen } else { g.below(3) as u8 })); nconn += 1; }
+        else if r < 60 { evs.push(PEv::Init(g.below(nconn as u64) as usize, if g.chance(1, 2) { 0 } else { 1 + g.below(14) as u8 })); }
+        else if r < 67 { evs.push(PEv::Close(g.below(nconn as u64) as usize)); }
+        else { let b = pc(g); let n = mix(&cur, &b, g.below(32) as u8); cur = n; evs.push(PEv::Reload(n)); }
+    }
+    (cfg0, evs)
+}
+
 // =================================================================== main
 
 fn replay_line(flags: Flags, line: &str) -> Option<Outcome> {
@@ -1278,6 +1553,7 @@ fn replay_line(flags: Flags, line: &str) -> Option<Outcome> {
     if let Some((c, e)) = parse_xcase(line) { return Some(filter_case(&c, &e)); }
     if let Some((c, e)) = parse_ncase(line) { return Some(null_case(&c, &e)); }
     if let Some((c, e)) = parse_mcase(line) { return Some(mrt_case(flags, &c, &e)); }
+    if let Some((c, e)) = parse_pcase(line) { return Some(bmp_case(&c, &e)); }
     None
 }
 
@@ -1285,7 +1561,7 @@ fn main() {
     let args = parse_args();
     let t0 = Instant::now();
     install_panic_hook();
-    let mut rec = Recorder::new("bgp-tcp-in: a Reconfigure arrives while at least one session is established; file-out: at least one reload and at least one record emitted after it; filter: a reload and a notice; null-out, mrt-file-in: at least one reload");
+    let mut rec = Recorder::new("bgp-tcp-in: a Reconfigure arrives while at least one session is established; file-out: at least one reload and at least one record emitted after it; filter: a reload and a notice; null-out, mrt-file-in, bmp-tcp-in: at least one reload");
     let record = |rec: &mut Recorder, o: Outcome| {
         if o.discard { rec.bump("discarded.environment"); return; }
         for n in &o.notes { rec.bump(n); }
@@ -1308,6 +1584,14 @@ fn main() {
         flags.mrt = w.imp.contains(" r>s2 ");
         wouts.push(w);
     }
+    {
+        // bmp-tcp-in: path and tracing mode change while a router is connected
+        let w = bmp_case(&PCfg { listen: 0, path: 0, tmpl: 0, filter: 0, mode: 0 }, &[PEv::Conn(0), PEv::Init(0, 0), PEv::Reload(PCfg { listen: 0, path: 1, tmpl: 0, filter: 0, mode: 1 }), PEv::Init(0, 3), PEv::Init(0, 4)]);
+        let toks: Vec<&str> = w.imp.split_whitespace().collect();
+        flags.bmppath = toks.get(2).map(|t| t.contains(":H1:")).unwrap_or(false);
+        flags.bmptrace = toks.get(3).map(|t| t.starts_with("m1t3")).unwrap_or(false);
+        wouts.push(w);
+    }
     if let Some(path) = &args.replay {
         let mut rec = Recorder::new(&rec.rule.clone());
         // in order, but eight at a time (a confirmation replay of many suspect cases must not take minutes)
@@ -1323,6 +1607,15 @@ fn main() {
     for o in wouts { record(&mut rec, o); }
     record(&mut rec, filter_case(&XCfg { name: 1, sources: vec![0, 1] }, &[XEv::Eos(0, 5), XEv::Eos(2, 6), XEv::Reload(true, XCfg { name: 2, sources: vec![1, 2] }), XEv::Eos(0, 7), XEv::Eos(2, 8), XEv::Reload(false, XCfg { name: 2, sources: vec![1, 2] }), XEv::Eos(1, 9)]));
     record(&mut rec, null_case(&[0, 2], &[NEv::Report, NEv::Reload(vec![1]), NEv::Report, NEv::Reload(vec![1])]));
+    // bmp-tcp-in: one reload per subset of the five settings (all 32), eight at a time
+    {
+        let mut g = Rng::new(args.seed.wrapping_mul(77).wrapping_add(5));
+        let cases: Vec<(PCfg, Vec<PEv>)> = (0..32u8).map(|sub| bmp_subset_case(&mut g, sub)).collect();
+        for chunk in cases.chunks(8) {
+            let hs: Vec<_> = chunk.iter().cloned().map(|(c, e)| std::thread::spawn(move || bmp_case(&c, &e))).collect();
+            for h in hs { if let Ok(o) = h.join() { rec.bump("bmp-subset-case"); record(&mut rec, o); } }
+        }
+    }
     // ---- generated histories
     let budget = std::env::var("VERIF_BUDGET").ok().and_then(|b| b.parse().ok()).map(Duration::from_secs).unwrap_or(if args.thorough { Duration::from_secs(200) } else { Duration::from_secs(22) });
     let seed = args.seed;
@@ -1333,7 +1626,8 @@ fn main() {
             let mut g = Rng::new(seed.wrapping_mul(1000).wrapping_add(ti as u64 + 1));
             let mut outs = vec![];
             while t0.elapsed() < budget {
-                if ti < 7 { let (c, e) = gen_bgp(&mut g); outs.push(bgp_case(flags, &c, &e)); }
+                if ti < 6 { let (c, e) = gen_bgp(&mut g); outs.push(bgp_case(flags, &c, &e)); }
+                else if ti == 6 { let (c, e) = gen_bmp(&mut g); outs.push(bmp_case(&c, &e)); }
                 else {
                     // one thread for the three cheap component types; the counts are capped so that they do not crowd out the bgp cases
                     let k = outs.len();
@@ -1356,5 +1650,7 @@ fn set_variants(rec: &mut Recorder, f: Flags) {
     rec.variant("bgplisten", v(f.bgplisten));
     rec.variant("fileout", v(f.fileout));
     rec.variant("mrt", v(f.mrt));
+    rec.variant("bmppath", v(f.bmppath));
+    rec.variant("bmptrace", v(f.bmptrace));
     let _: BTreeMap<u8, u8> = BTreeMap::new();
 }
